@@ -526,6 +526,38 @@ class Path:
             return list(o.items)
         return None
 
+    def _iter_src(self, it, ordered=False):
+        """the iterable whose elements a loop visits: list(x), tuple(x), iter(x), x.tolist(), np.asarray(x) (and, for a loop body evaluated on
+        one generic element, reversed(x) / sorted(x)) visit the elements of x along its first axis"""
+        for _ in range(6):
+            o = self.obj(it)
+            if o is not None and o.kind == "list" and o.origin[0] == "call" and o.origin[1] == "list" and len(o.origin[2]) == 1 and not o.origin[3] \
+                    and not any(e.kind == "store" and e.target == it for e in self.events):
+                it = o.origin[2][0]
+            elif it[0] == "call" and it[1] in (".tolist", "tuple", "iter", "np.asarray", "np.asanyarray") + (() if ordered else ("reversed", "sorted")) \
+                    and len(it[2]) == 1 and not it[3]:
+                it = it[2][0]
+            else:
+                break
+        return it
+
+    def _elem_of(self, it, ordered=False):
+        """the generic element a loop over `it` visits.  enumerate(x) is (position, element of x); zip(a, b) visits a and b in lockstep; a
+        list built as [f(e) for e in x] visited in step with x holds f(element of x)"""
+        it = self._iter_src(it, ordered)
+        if it[0] == "call" and it[1] == "enumerate" and len(it[2]) == 1 and not it[3]:
+            src = self._iter_src(it[2][0], True)
+            return ("tup", ("elem", ("call", "range", (("call", "len", (src,), ()),), ())), self._elem_of(src, True))
+        if it[0] == "call" and it[1] == "zip" and it[2] and not it[3]:
+            return ("tup",) + tuple(self._elem_of(a, True) for a in it[2])
+        o = self.obj(it)
+        if o is not None and o.kind == "list" and o.origin[0] == "call" and o.origin[1] == "<ListComp>" and len(o.origin[2]) == 2 \
+                and not any(e.kind == "store" and e.target == it for e in self.events):
+            return o.origin[2][1]
+        if it[0] == "call" and it[1] == "<GeneratorExp>" and len(it[2]) == 2:
+            return it[2][1]
+        return ("elem", it)
+
     def _comprehension(self, n, fr):
         """literal tables are unrolled; any other iterable is evaluated once on a generic element (calls and stores inside are recorded)"""
         kind = type(n).__name__
@@ -533,7 +565,7 @@ class Path:
         if len(n.generators) != 1 or n.generators[0].is_async:
             return ("call", "<" + kind + ">", (("c", ast.dump(n)[:300]),), ())
         g = n.generators[0]
-        it = self.eval(g.iter, fr)
+        it = self._iter_src(self.eval(g.iter, fr))
         items = self._iter_items(it)
         out = []
 
@@ -560,7 +592,7 @@ class Path:
             return (("lst",) if isinstance(n, ast.ListComp) else ("tup",)) + tuple(out)
         self.loops = self.loops + [it]
         try:
-            one(("elem", it), generic=True)
+            one(self._elem_of(it), generic=True)
         finally:
             self.loops = self.loops[:-1]
         if isinstance(n, ast.DictComp):
@@ -605,6 +637,18 @@ class Path:
         return op(name, a, b)
 
     def _load(self, b, i):
+        v = self._load0(b, i)
+        if self.I.loadevents and v[0] in ("idx", "ld"):
+            # when a subscript load happened (rules that replay stores into an object need to know which stores a load has seen)
+            self._ev("load", target=b, index=i, value=v, node=self.curnode)
+        return v
+
+    def _load0(self, b, i):
+        if i[0] == "elem" and i[1][0] == "call" and i[1][1] == "range" and len(i[1][2]) == 1 and not i[1][3]:
+            # x[k] with k the generic position of a loop over range(len(x)) / range(x.size) / range(x.shape[0]) is the generic element of x
+            n_ = i[1][2][0]
+            if n_ in (("call", "len", (b,), ()), ("attr", b, "size"), ("idx", ("attr", b, "shape"), ("c", 0))) and b[0] not in ("tup", "lst"):
+                return ("elem", b)
         if b in (("g", "np.s_"), ("g", "np.index_exp")):
             # np.s_[a:b] is the slice object itself
             return i if (b[1] == "np.s_" or i[0] == "tup") else ("tup", i)
@@ -615,10 +659,10 @@ class Path:
             if st_ in (NONE, ("c", 1)) and is_const(lo) and isinstance(lo[1], int) and lo[1] >= 0 and \
                     (hi == NONE or (is_const(hi) and isinstance(hi[1], int) and hi[1] > lo[1] + i[1])) and \
                     (hi != NONE or b[1][0] in ("tup", "lst") or (b[1][0] == "call" and b[1][1] == ".nonzero")):
-                return self._load(b[1], ("c", lo[1] + i[1]))
+                return self._load0(b[1], ("c", lo[1] + i[1]))
         v = self._through_column(b, i)
         if v is not None:
-            return self._load(v[0], v[1])
+            return self._load0(v[0], v[1])
         if b[0] == "attr" and b[2] == "__dict__" and is_const(i) and isinstance(i[1], str):
             return self._getattr(b[1], i[1])
         if b[0] in ("tup", "lst"):
@@ -1019,13 +1063,15 @@ class Path:
             elif len(a) == 2:
                 a = [a[0], a[1], NONE]
             return ("slice",) + tuple(a) if len(a) == 3 else ("call", "slice", tuple(a), ())
+        if name in ("int", "operator.index") and len(args) == 1 and not kws and args[0][0] == "elem":
+            return args[0]              # an index taken from an index vector, made a Python int
         if name == "len" and len(args) == 1 and args[0][0] in ("tup", "lst"):
             return ("c", len(args[0]) - 1)
         if name == "isinstance":
             return ("call", "isinstance", tuple(args), ())
         if name in ("print",):
             return NONE
-        if name == "range" and len(args) == 1 and args[0][0] == "call" and args[0][1] == "len":
+        if name == "range" and len(args) == 1 and not kws and _nonneg(args[0]):
             return ("call", "range", tuple(args), ())
         return self._opaque(name, args, kws, n)
 
@@ -1089,6 +1135,55 @@ class Path:
             return all(self._truth(op(CMPOPS[type(o)], vals[i], vals[i + 1])) for i, o in enumerate(n.ops))
         return self._truth(self.eval(n, fr))
 
+    def _counted_while(self, s, fr):
+        """(counter, bound value, body without the increment) of `while k < n: ...; k += 1` entered with k == 0, the counter assigned nowhere
+        else in the body and no break / else"""
+        t = s.test
+        if s.orelse or not (isinstance(t, ast.Compare) and len(t.ops) == 1 and isinstance(t.ops[0], ast.Lt) and isinstance(t.left, ast.Name)):
+            return None
+        k = t.left.id
+        if fr.locals.get(k) != ("c", 0) or not s.body:
+            return None
+        last = s.body[-1]
+        if not (isinstance(last, ast.AugAssign) and isinstance(last.op, ast.Add) and isinstance(last.target, ast.Name) and last.target.id == k
+                and isinstance(last.value, ast.Constant) and last.value.value == 1 and type(last.value.value) is int):
+            return None
+        for st in s.body[:-1]:
+            for x in ast.walk(st):
+                if isinstance(x, (ast.Break, ast.Continue)) or (isinstance(x, ast.Name) and x.id == k and isinstance(x.ctx, (ast.Store, ast.Del))):
+                    return None
+        bound = self.eval(t.comparators[0], fr)
+        if not _nonneg(bound):
+            return None
+        return k, bound, s.body[:-1]
+
+    def _match(self, pat, subj, fr):
+        """truth of a `case` pattern: literal / dotted-name values (==), None / True / False (is), alternatives, wildcard and capture; the
+        chain of cases is the if / elif chain of these tests"""
+        if isinstance(pat, ast.MatchValue):
+            return self._truth(op("eq", subj, self.eval(pat.value, fr)))
+        if isinstance(pat, ast.MatchSingleton):
+            if pat.value is None:
+                return self._truth(op("is", subj, NONE))
+            if subj[0] == "call" and subj[1] == "bool" and len(subj[2]) == 1:
+                r = self._truth(subj)                       # bool(x) is True  <=>  x is true
+                return r if pat.value else not r
+            if is_const(subj):
+                return subj[1] is pat.value
+            return self._truth(op("is", subj, ("c", pat.value)))
+        if isinstance(pat, ast.MatchOr):
+            for p_ in pat.patterns:
+                if self._match(p_, subj, fr):
+                    return True
+            return False
+        if isinstance(pat, ast.MatchAs):
+            if pat.pattern is not None and not self._match(pat.pattern, subj, fr):
+                return False
+            if pat.name is not None:
+                fr.locals[pat.name] = subj
+            return True
+        raise Unsupported(f"match pattern {type(pat).__name__}")
+
     def block(self, stmts, fr):
         for s in stmts:
             self.stmt(s, fr)
@@ -1129,7 +1224,7 @@ class Path:
         elif isinstance(s, ast.If):
             self.block(s.body if self.test(s.test, fr) else s.orelse, fr)
         elif isinstance(s, ast.For):
-            it = self.eval(s.iter, fr)
+            it = self._iter_src(self.eval(s.iter, fr))
             items = self._iter_items(it)
             if items is not None:
                 for x in items:
@@ -1146,7 +1241,7 @@ class Path:
             else:
                 before = set(fr.locals)
                 self.loops = self.loops + [it]
-                self.assign(s.target, ("elem", it), fr, s)
+                self.assign(s.target, self._elem_of(it), fr, s)
                 try:
                     self.block(s.body, fr)
                 except _LoopCtl:
@@ -1156,6 +1251,20 @@ class Path:
                 fr.maybe = getattr(fr, "maybe", set()) | (set(fr.locals) - before)
             self.block(s.orelse, fr)
         elif isinstance(s, ast.While):
+            cnt = self._counted_while(s, fr)
+            if cnt is not None:
+                # k = 0; while k < n: body; k += 1   is   for k in range(n): body
+                name, bound, body = cnt
+                it = ("call", "range", (bound,), ())
+                self.loops = self.loops + [it]
+                fr.locals[name] = ("elem", it)
+                try:
+                    self.block(body, fr)
+                except _LoopCtl:
+                    pass
+                self.loops = self.loops[:-1]
+                fr.locals[name] = bound
+                return
             self.loops = self.loops + [("c", "while")]
             try:
                 self.block(s.body, fr)
@@ -1215,6 +1324,12 @@ class Path:
                 fr.locals[nm] = ("g", canon.get(nm, al.asname or al.name))
         elif isinstance(s, ast.ClassDef):
             fr.locals[s.name] = ("g", s.name)
+        elif isinstance(s, ast.Match):
+            subj = self.eval(s.subject, fr)
+            for case in s.cases:
+                if self._match(case.pattern, subj, fr) and (case.guard is None or self.test(case.guard, fr)):
+                    self.block(case.body, fr)
+                    break
         elif isinstance(s, (ast.Pass, ast.Assert, ast.Global, ast.Nonlocal, ast.Delete)):
             pass
         else:
@@ -1254,7 +1369,7 @@ def _nonneg(t):
 
 
 class Interp:
-    def __init__(self, ctx, rel, qual, cond=None, pins=None, kinds=None, noinline=(), mutators=None):
+    def __init__(self, ctx, rel, qual, cond=None, pins=None, kinds=None, noinline=(), mutators=None, loadevents=False):
         self.ctx = ctx
         self.rel = rel
         self.qual = qual
@@ -1265,6 +1380,7 @@ class Interp:
         self.kinds = dict(kinds or {})
         self.noinline = set(noinline)
         self.mutators = dict(mutators or {})
+        self.loadevents = loadevents
         self._mc = {}
 
     def method(self, name):
